@@ -59,7 +59,10 @@ def url_cases(draw):
     return {"uri": uri, "scheme": scheme, "path": path, "query": query,
             "content_type": draw(st.sampled_from(["application/json-rpc", "application/json", "text/x-json; charset=utf-8"])),
             "args": draw(st.lists(st.one_of(wide_text, gen.json_values(4)), max_size=3)),
-            "style": draw(st.sampled_from(["call", "notify", "batch"])), "version": draw(st.sampled_from([1.0, 2.0]))}
+            "style": draw(st.sampled_from(["call", "notify", "batch"])), "version": draw(st.sampled_from([1.0, 2.0])),
+            # what the same proxy did before: nothing, a complete exchange, or a request that failed
+            # while its header block was being written (a header value the HTTP layer refuses)
+            "prior": draw(st.sampled_from([None, None, "complete", "failed-in-headers", "failed-in-headers"]))}
 
 
 def oracle_client_request(case):
@@ -76,6 +79,19 @@ def oracle_client_request(case):
         proxy = J.ServerProxy(case["uri"], transport=tr, config=cfg, history=history, version=case["version"])
     except Exception as ex:
         fail("C17/supported-scheme-rejected", "ServerProxy(%r) raised %s: %s" % (case["uri"], type(ex).__name__, ex))
+    if case.get("prior") == "complete":
+        try:
+            proxy.earlier(1)
+        except (J.ProtocolError, TypeError):
+            pass     # the canned reply may be the batch array meant for the request under test
+    elif case.get("prior"):
+        try:
+            with proxy._additional_headers({"X-Fine": "1", "X-Refused": "two\nlines"}):
+                proxy.earlier(1)
+        except (ValueError, J.ProtocolError, TypeError):
+            pass
+    for c in conns:
+        del c.sent[:]
     try:
         if case["style"] == "call":
             proxy.method_x(*case["args"])
@@ -116,6 +132,8 @@ def oracle_client_request(case):
         classes.append("multibyte-body")
     if not case["path"]:
         classes.append("empty-path")
+    if case.get("prior"):
+        classes.append("after-%s-request" % case["prior"])
     return Info(nt=nt, classes=classes, sample={"uri": case["uri"], "request-line": line, "content-length": len(want)})
 
 
@@ -151,7 +169,7 @@ def oracle_scheme(case):
 
 def big_texts():
     """Texts whose multi-byte characters sit around the 1024-byte boundaries"""
-    filler = st.sampled_from(["é", "€", "😀", "a", "汉"])
+    filler = st.sampled_from(["é", "€", "😀", "a", "汉", "\ufeff", "\ufeffé"])
 
     @st.composite
     def build(draw):
@@ -295,7 +313,8 @@ def oracle_response(case):
     return Info(nt=nt, classes=classes, sample={"bytes": nbytes, "reads": reads[:12], "gzip": case["gzip"], "text": text[:80]})
 
 
-SPLIT_TEXTS = ["é", "€", "😀", "aé", "é€", "€😀", "汉x", "\u07ff\u0800"]
+# (U+FEFF inside a text is a character like any other: only at the very start of a body could it be a byte order mark)
+SPLIT_TEXTS = ["é", "€", "😀", "aé", "é€", "€😀", "汉x", "\u07ff\u0800", "a\ufeffb", "\ufeff", "\ufffe\ufeff"]
 
 
 def split_cases(tier):
